@@ -282,6 +282,7 @@ static void run_c06(const vf::Args &args, Report &rep)
         PoseidonGoldilocks::hash_full_result_seq(out, in);
         cmp12(rep, "C06", "hash_full_result_seq", fam, st, out, exp);
         PoseidonGoldilocks::hash_full_result(out, in);
+        vf::digest("hash_full_result", t, out, sizeof out);
         cmp12(rep, "C06", "hash_full_result", fam, st, out, exp);
         {
             // in place, as the sponge calls it
@@ -312,6 +313,7 @@ static void run_c06(const vf::Args &args, Report &rep)
                 El in2[24], out2[24];
                 for (int j = 0; j < 3; j++) for (int i = 0; i < 4; i++) { in2[8 * j + i].fe = a[4 * j + i]; in2[8 * j + 4 + i].fe = b[4 * j + i]; }
                 PoseidonGoldilocks::hash_full_result_avx512(out2, in2);
+                vf::digest("hash_full_result_avx512", t * 2 + sw, out2, sizeof out2);
                 El oa[12], ob[12];
                 for (int j = 0; j < 3; j++) for (int i = 0; i < 4; i++) { oa[4 * j + i] = out2[8 * j + i]; ob[4 * j + i] = out2[8 * j + 4 + i]; }
                 cmp12(rep, "C06", sw ? "hash_full_result_avx512(second state)" : "hash_full_result_avx512(first state)", fam, st, sw ? ob : oa, exp);
@@ -423,6 +425,7 @@ static void run_c07(const vf::Args &args, Report &rep)
 #endif
                     if (frame[0] != SENT || frame[1] != SENT || frame[6] != SENT || frame[7] != SENT)
                         rep.violation(std::string("C07:") + bn + ":writes-beyond-digest", J().u("length", l).done());
+                    vf::digest(bn, vf::mix64(l, ct), frame, sizeof frame);
                     check4(bn, frame + 2, e1, 0);
                     if (memcmp(p, in.data(), l * 8)) rep.violation(std::string("C07:") + bn + ":input-modified", J().u("length", l).done());
                 });
@@ -440,6 +443,7 @@ static void run_c07(const vf::Args &args, Report &rep)
 #endif
                 if (frame[0] != SENT || frame[1] != SENT || frame[10] != SENT || frame[11] != SENT)
                     rep.violation("C07:linear_hash_avx512:writes-beyond-digest", J().u("length", l).done());
+                vf::digest("linear_hash_avx512", vf::mix64(l, ct), frame, sizeof frame);
                 check4("linear_hash_avx512", frame + 2, e1, 0);
                 check4("linear_hash_avx512", frame + 6, e2, 1);
                 if (memcmp(p, in.data(), 2 * l * 8)) rep.violation("C07:linear_hash_avx512:input-modified", J().u("length", l).done());
@@ -589,6 +593,7 @@ static void run_c08(const vf::Args &args, Report &rep)
 #endif
             }
             std::string stem = std::string("C08:") + BN[c.builder];
+            vf::digest(std::string(BN[c.builder]) + ":rows" + std::to_string(c.rows), vf::mix64(vf::mix64(c.rows * 131 + c.cols, c.dim * 17 + c.builder), c.batch), tt, ne * 8);
             for (uint64_t k = 0; k < ne; k++)
             {
                 // leaf digests of rows with <= 4 elements are pass-through copies: bit identical; everything else as field elements
